@@ -50,7 +50,7 @@ GROUPS = {
     "TlsSess": dict(imports=["TLX.PyRt", "TLX.Session"], decls=[]),
     "Reasm": dict(imports=["TLX.PyRt", "TLX.Reassembly"], decls=[]),
     # the frame class constructors call the two varint functions: this group rests on Varint's definitions
-    "Frames": dict(imports=["TLX.PyRt", "TLX.Gen.Translated.Varint"], decls=[]),
+    "Frames": dict(imports=["TLX.PyRt", "TLX.Quic.FrameTypes", "TLX.Gen.Translated.Varint"], decls=[]),
 }
 
 SPECS = [
@@ -271,6 +271,57 @@ for _cls, _attrs in FRAME_CLASSES:
                       raise_state=False,
                       places=[("self." + a.rstrip("_"), a, t, "rw") for a, t in _attrs]))
 
+CLS = "TLX.Quic.Cls"
+NO_ATTR_CLASSES = ["PingFrame", "HandshakeDoneFrame"]            # constructors that write nothing
+CLASS_LENGTH = ["PingFrame", "HandshakeDoneFrame", "PathChallengeFrame", "PathResponseFrame"]   # `length` is a class attribute
+for _cls in NO_ATTR_CLASSES:
+    SPECS.append(dict(name=_cls + "_init", group="Frames", file="tlexport/quic/quic_frame.py", func=_cls + ".__init__",
+                      params=[("_payload", "Bytes")], ret="None", drop_calls=["super().__init__(src_packet)"],
+                      theorem="parse_frames_eq_model"))
+for _cls in CLASS_LENGTH:
+    SPECS.append(dict(name=_cls + "_length", group="Frames", kind="classattr", file="tlexport/quic/quic_frame.py", func=None,
+                      cls=_cls, attr="length", type="Nat", theorem="parse_frames_eq_model"))
+
+
+def frame_glue():
+    """the frame objects as one type, `frame.length` (instance attribute if the constructor writes it, else the class
+    attribute) and the constructor per class name — glue over the translated definitions, nothing read from the source"""
+    written = {c: [a for a, _ in attrs] for c, attrs in FRAME_CLASSES}
+    lines = ["/-- an object of one of the frame classes: the attributes its constructor wrote -/", "inductive FrameObj"]
+    for c, _ in FRAME_CLASSES:
+        lines.append(f"  | {c} (s : {c}_init.St)")
+    for c in NO_ATTR_CLASSES:
+        lines.append(f"  | {c}")
+    lines += ["  deriving DecidableEq, Repr", "", "/-- `frame.length` -/", "def FrameObj.length : FrameObj → Nat"]
+    for c, _ in FRAME_CLASSES:
+        lines.append(f"  | .{c} s => " + ("s.length" if "length" in written[c] else f"{c}_length"))
+    for c in NO_ATTR_CLASSES:
+        lines.append(f"  | .{c} => {c}_length")
+    lines += ["", "/-- `<class>(payload, src_packet)` (attributes that exist only on some paths start absent) -/",
+              f"def construct (c : {CLS}) (payload : Bytes) : Except PyRt.Err FrameObj :=", "  match c with"]
+    for c, attrs in FRAME_CLASSES:
+        opt = "".join(" none" for a, t in attrs if t.startswith("Option ") and c in ("AckFrame", "ConnectionCloseFrame"))
+        raises = c not in ("PathChallengeFrame", "PathResponseFrame")
+        lines.append(f"  | .{c} => " + (f"({c}_init payload{opt}).map .{c}" if raises else f".ok (.{c} ({c}_init payload))"))
+    for c in NO_ATTR_CLASSES:
+        lines.append(f"  | .{c} => .ok .{c}")
+    return "\n".join(lines) + "\n"
+
+
+SPECS.append(dict(name="FrameObj", group="Frames", kind="raw", file="tlexport/quic/quic_frame.py", func=None, gen=frame_glue,
+                  theorem="parse_frames_eq_model"))
+SPECS.append(dict(name="frame_type", group="Frames", kind="table", file="tlexport/quic/quic_frame.py", func=None, target="frame_type",
+                  type=f"List (List Nat × {CLS})", theorem="frame_type_eq_model",
+                  consts={c: (f"{CLS}.{c}", CLS) for c in [x for x, _ in FRAME_CLASSES] + NO_ATTR_CLASSES}))
+SPECS.append(dict(name="parse_frames", group="Frames", file="tlexport/quic/quic_frame.py", func="parse_frames",
+                  params=[("payload", "Bytes")], ret="List FrameObj",
+                  consts={"frame_type": ("frame_type", f"Table List Nat; {CLS}")},
+                  locals={"key": "Int|List Nat", "frames": "List FrameObj"},
+                  fuel={"while len(payload) != 0": "len(payload)"},
+                  class_call=dict(type=f"Option {CLS}", lean="construct", args=["Bytes", None], ret="FrameObj"),
+                  calls={"GenericFrame": dict(lean=f"construct {CLS}.GenericFrame", args=["Bytes", None], ret="FrameObj", raises=True)},
+                  attr_funcs={("FrameObj", "length"): ("FrameObj.length", "Nat")}))
+
 THEOREMS = _uniq(theorem_of(s) for s in SPECS)
 
 
@@ -349,6 +400,20 @@ def translate_table(tree, text, spec):
             f"def {spec['name']} : {spec['type']} :=\n  {table_term(st.value, spec, fname)}\n")
 
 
+def translate_classattr(tree, text, spec):
+    """`attr = <int literal>` in the body of class `cls`"""
+    cls = next((n for n in tree.body if isinstance(n, ast.ClassDef) and n.name == spec["cls"]), None)
+    if cls is None:
+        raise Untranslatable(spec["cls"], tree, f"class not found in {spec['file']}")
+    hits = [n for n in cls.body if isinstance(n, ast.Assign) and len(n.targets) == 1 and ast.unparse(n.targets[0]) == spec["attr"]]
+    if (len(hits) != 1 or not isinstance(hits[0].value, ast.Constant) or isinstance(hits[0].value.value, bool)
+            or not isinstance(hits[0].value.value, int) or hits[0].value.value < 0):
+        raise Untranslatable(spec["cls"], cls, f"class attribute `{spec['attr']}` is not assigned one non-negative int literal in the class body")
+    st = hits[0]
+    return (f"/- class attribute `{spec['cls']}.{spec['attr']}`: {spec['file']} line {st.lineno} -/\n"
+            f"def {spec['name']} : {spec['type']} := {st.value.value}\n")
+
+
 def translate_all(root, specs=None):
     """→ ({file name under lean/TLX/Gen: Lean text}, problems); each problem names its group"""
     specs = SPECS if specs is None else specs
@@ -365,6 +430,12 @@ def translate_all(root, specs=None):
             text, tree = cache[path]
             if spec.get("kind") == "table":
                 out.append(translate_table(tree, text, spec))
+                continue
+            if spec.get("kind") == "classattr":
+                out.append(translate_classattr(tree, text, spec))
+                continue
+            if spec.get("kind") == "raw":
+                out.append(f"/- glue over the definitions above (harness/translate.py `{spec['gen'].__name__}`) -/\n" + spec["gen"]())
                 continue
             fn = py2lean.find_function(tree, spec["func"])
             if fn is None:
